@@ -192,6 +192,45 @@ def value_pair_docs():
         yield ("value pair %r / %r" % (vals[a], vals[b]), d)
 
 
+def typed_element_docs():
+    """fixed documents: elements whose prov:type names a PROV class — a subclass of the element's own kind (agent /
+    Person), a subclass of another kind (an entity typed prov:Person, an activity typed prov:Plan), alone and next to a record that carries the same class legitimately, with
+    and without relations that change the order in which the writer emits the subjects, at document level and in a bundle"""
+    import itertools
+    import prov.model as M
+    from prov.identifier import Namespace
+    EX = Namespace("ex", "http://example.org/")
+    P = M.PROV
+    # (the three base classes themselves are left out: in RDF `ex:x a prov:Entity, prov:Agent` is one set of rdf:type
+    # triples, which cannot say which of the two is the kind and which the asserted type — not PROV-O-expressible)
+    elems = [("agent", "alice", ["Person"]), ("entity", "record-of-bob", ["Person"]), ("activity", "planning", ["Plan"]),
+             ("entity", "thing", ["SoftwareAgent"]), ("agent", "acme", ["Organization", "Plan"]), ("entity", "plan", ["Plan"]),
+             ("activity", "act", ["Collection"]), ("entity", "coll", ["Collection", "Person"])]
+    for k in (1, 2, 3):
+        for combo in itertools.combinations(range(len(elems)), k):
+            if k == 3 and combo[0] > 1:
+                continue
+            for in_bundle in (False, True):
+                for rels in ((), ("attr",), ("attr", "used")):
+                    if k == 1 and rels:
+                        continue
+                    d = M.ProvDocument(); d.add_namespace(EX)
+                    c = d.bundle(EX["bundle"]) if in_bundle else d
+                    made = []
+                    for i in combo:
+                        kind, name, types = elems[i]
+                        r = getattr(c, kind)(EX[name], other_attributes=[("prov:type", P[t]) for t in types] + [(EX["n"], i)])
+                        made.append((kind, r))
+                    ents = [r for kd, r in made if kd == "entity"]
+                    ags = [r for kd, r in made if kd == "agent"]
+                    acts = [r for kd, r in made if kd == "activity"]
+                    if "attr" in rels and ents and ags:
+                        c.wasAttributedTo(ents[0], ags[0])
+                    if "used" in rels and ents and acts:
+                        c.used(acts[0], ents[0])
+                    yield ("typed elements %s%s%s" % ("+".join(elems[i][1] for i in combo), " in a bundle" if in_bundle else "", " " + "+".join(rels) if rels else ""), d)
+
+
 def rel_descriptors(d):
     """the relation records of a (bundle-free) document as the quad-level model sees them"""
     import datetime
@@ -775,6 +814,17 @@ def run(tier, seed, log, model_runs=True, enlarged=False):
         for f in fails:
             violations.append({"kind": "failing-input", "failure": dict(f, shape=desc), "provn": d.get_provn()[:2500]})
     log("value pairs: %d documents" % npairs)
+    ntyped = 0
+    for desc, d in typed_element_docs():
+        ntyped += 1
+        try:
+            fails = roundtrip_case(d, rng, 1)
+        except Exception:
+            violations.append({"kind": "harness-error", "what": "harness error", "detail": traceback.format_exc()[-1500:]})
+            continue
+        for f in fails:
+            violations.append({"kind": "failing-input", "failure": dict(f, shape=desc), "provn": d.get_provn()[:2500]})
+    log("typed elements: %d documents" % ntyped)
     disagreements = []
     npred = 0
     if model_runs:
